@@ -233,6 +233,23 @@ func c02Links(r *Result) {
 		}
 		link(n > 0, "VALUE-NORMALISED", "(x/bridge/keeper.Keeper).EncodeOracleAttestationData # decodes the value", P.Pos(enc.Pos()), fmt.Sprintf("%d non-constant DecodeString sites", n))
 	}
+	// the validation at submission parses the value with the same strict decoder, after the same normaliser and nothing else
+	if dv := need("x/registry/types.DecodeValue"); dv != nil {
+		n := 0
+		for _, cs := range P.CallSitesIn(dv) {
+			if cs.Callee == "encoding/hex.DecodeString" {
+				n++
+				t := NewTermer().Of(cs.Instr.Common().Args[0])
+				ok := strings.HasPrefix(t.Op, "call:") && strings.HasSuffix(t.Op, ".Remove0xPrefix") && len(t.Args) == 1 && t.Args[0].Op == "param:0:string"
+				link(ok, "VALUE-NORMALISED", "x/registry/types.DecodeValue # the validator decodes exactly the 0x-stripped value (what it accepts, every later hex.DecodeString accepts)", P.Pos(cs.Pos()), "decoded string: "+clip(t.String(), 140))
+			}
+		}
+		link(n == 1, "VALUE-NORMALISED", "x/registry/types.DecodeValue # one hex.DecodeString site", P.Pos(dv.Pos()), fmt.Sprint(n))
+		// DecodeValue fails when the decode fails, and ValidateValue fails when DecodeValue fails
+		reach := P.Reachable([]*ssa.Function{P.Func("(x/registry/types.DataSpec).ValidateValue")}, nil)
+		_, okReach := reach[dv]
+		link(okReach, "VALUE-NORMALISED", "(x/registry/types.DataSpec).ValidateValue # goes through DecodeValue", P.Pos(dv.Pos()), "")
+	}
 	// ValidateValue dominates the report store in SetValue
 	if sv := need("(x/oracle/keeper.Keeper).SetValue"); sv != nil {
 		ps := AnalyzePaths(sv, []Atom{{Name: "validated", Event: P.CallEvent(func(c *CallSite) bool { return c.Callee == "(x/registry/types.DataSpec).ValidateValue" }, T)},
